@@ -9,6 +9,12 @@ differentiation of the recorded DAG).  Symbolic q, p, step size, inverse mass ma
   * energy error: dH(eps) has dH(0) = 0 and d dH/d eps (0) = 0  (=> O(eps^2))
   * HMCOperator._step returns K0 - K1 with K = p^T M^-1 p / 2, and restores the
     parameters when the trajectory fails numerically
+  * retuned objects (history_task): one integrator / operator, used, then retuned through
+    every mutator; every clause again for the tunables the object reports
+  * consecutive calls (seq_task): histories of 2 / 3 calls of ONE integrator / operator on
+    ONE set of parameter objects with the target U(q, h) changing between the calls through
+    a parameter h outside the HMC block (accepted / rejected / Gibbs update / in-place
+    writes / restore-and-retry); every clause after every call for the CURRENT target
 """
 from __future__ import annotations
 
@@ -140,12 +146,12 @@ def hess_symmetry(d, roots):
     for n in d.topo(roots):
         if d.ops[n] == 'uf' and d.args[n][0].count('~') == 2:
             name = d.args[n][0]
-            l, k, _ = name.split('~')
-            seen[(l, k, d.args[n][1:])] = n
-    for (l, k, args), n in list(seen.items()):
-        other = seen.get((k, l, args))
+            l, k, base = name.split('~')
+            seen[(l, k, base, d.args[n][1:])] = n
+    for (l, k, base, args), n in list(seen.items()):
+        other = seen.get((k, l, base, args))
         if other is None:
-            other = d.uf(f'{k}~{l}~U', *args)
+            other = d.uf(f'{k}~{l}~{base}', *args)
         hy.append(d.eq(n, other))
     return hy
 
@@ -448,13 +454,15 @@ def apply_history(how, integ, op, mass, params, inp, use, set_q):
         raise KeyError(how)
 
 
-def textbook_dag(d, q, p, minv, eps, steps):
+def textbook_dag(d, q, p, minv, eps, steps, extra=(), name='U'):
     """leapfrog for the log density U written on the DAG: gradient = the derivative symbols d_k U of the uninterpreted
-    target; minv = list (diagonal) or list of rows (dense) of node ids; returns (q', p')"""
+    target; minv = list (diagonal) or list of rows (dense) of node ids; returns (q', p').  `extra` = further arguments
+    of the target that are not integrated (the parameter outside the HMC block: U(q, h), gradient d_k U(q, h), k < len(q))"""
     n = len(q)
+    extra = tuple(extra)
 
     def grad(x):
-        return [d.uf(f'd{k}~U', *x) for k in range(n)]
+        return [d.uf(f'd{k}~{name}', *x, *extra) for k in range(n)]
 
     def vel(pp):
         if isinstance(minv[0], list):
@@ -780,11 +788,13 @@ def logp_real(q):
     return -(0.5 * q * q).sum() - 0.25 * (q ** 4).sum() + 0.3 * q.prod()
 
 
-def textbook_real(q, p, minv, eps, steps):
+def textbook_real(q, p, minv, eps, steps, logp=None):
     """leapfrog written out independently of integrator.py (gradient by torch.autograd on the pure function)"""
+    logp = logp or logp_real
+
     def grad(x):
         x = x.clone().requires_grad_()
-        return torch.autograd.grad(logp_real(x), x)[0]
+        return torch.autograd.grad(logp(x), x)[0]
 
     def vel(pp):
         return minv @ pp if minv.dim() == 2 else minv * pp
@@ -1058,6 +1068,627 @@ def replay_history(cfg, clause, vals):
     return False, f'no replay for clause {clause}'
 
 
+# ------------------------------------------------------------------ consecutive calls on the SAME objects, changing target
+# Everything above decides the clauses for ONE call of a (possibly retuned) integrator / operator.  In a chain the same
+# integrator and operator are called again and again, the next trajectory starts where the last one ended (accepted) or
+# started (rejected), and between two HMC moves other operators change parameters the target depends on but that are
+# not in the HMC block (HMC within Gibbs).  seq_task: the target is the uninterpreted U(q, h) with a second argument h
+# (Parameter 'h', registered with the target, NOT in the operator's parameter list) whose value gets FRESH symbols
+# between two calls; the gradient the real backward() delivers is the uninterpreted d_k U(q, h): a gradient / energy
+# memoised from the previous call is d_k U(q, h_old) - a different term (congruence only identifies equal arguments;
+# a solver vacuity guard checks that d_k U(q, h_old) == d_k U(q, h_new) is refutable).
+# After EVERY call: trajectory == the leapfrog of the CURRENT target written on the DAG from the start of THIS call,
+# requires_grad off, det == 1, second-order energy error; Hastings == K0 - K1 (operator); flip-and-return after the
+# last call of the history (pure histories of 1, 2, 3 forward calls: a flip in between would itself be a call that
+# changes whatever the object carries) and - 'revmid' histories - after every call followed by the forward call again.
+SEQ_MODES = ('acc', 'rej', 'gibbs', 'acc+gibbs', 'inplace-h', 'inplace-q')
+SEQ_WHAT = {
+    'acc': 'accepted move: nothing changes, the next trajectory starts at the tensor objects the last one left',
+    'rej': 'rejected move: the parameters are put back to the saved start of the last trajectory',
+    'gibbs': 'rejected move, then the target changes through the parameter outside the HMC block (h.tensor = fresh symbols)',
+    'acc+gibbs': 'accepted move, then h.tensor = fresh symbols',
+    'inplace-h': 'accepted move, then h written in place (h.tensor[...] = fresh symbols) + fire_parameter_changed',
+    'inplace-q': 'accepted move, then the HMC parameters written in place (tensor.copy_(fresh symbols)) + fire_parameter_changed',
+}
+SEQ_SIG = {'integ': 'LeapfrogIntegrator:consecutive-calls:', 'op': 'HMCOperator._step:consecutive-calls:'}
+_MINV0 = {False: [1.3, 0.8, 1.1], True: [[1.3, 0.2], [0.2, 0.8]]}
+
+
+def gibbs_witness(d, n, m=1):
+    """witness values for U(q, h) = sum_i -(q_i - h_{i mod m})^2 / 2 + 0.1 q_i and its first / second partials
+    (arguments 0..n-1 = q, n..n+m-1 = h); named 'G' so that it cannot be confused with the one-argument-block U"""
+    def G(*a):
+        return sum(-0.5 * (a[i] - a[n + i % m]) ** 2 + 0.1 * a[i] for i in range(n))
+
+    def d1(k):
+        if k < n:
+            return lambda *a: -(a[k] - a[n + k % m]) + 0.1
+        j = k - n
+        return lambda *a: sum(a[i] - a[n + j] for i in range(n) if i % m == j)
+
+    def d2(l, k):  # d / d arg_l of d_k G
+        if k < n and l < n:
+            c = -1.0 if k == l else 0.0
+        elif k < n:
+            c = 1.0 if k % m == l - n else 0.0
+        elif l < n:
+            c = 1.0 if l % m == k - n else 0.0
+        else:
+            c = -float(sum(1 for i in range(n) if i % m == k - n)) if k == l else 0.0
+        return lambda *a: c
+
+    d.uf_eval['G'] = G
+    for k in range(n + m):
+        d.uf_eval[f'd{k}~G'] = d1(k)
+        for l in range(n + m):
+            d.uf_eval[f'd{l}~d{k}~G'] = d2(l, k)
+
+
+def make_gibbs_target(params, hyper):
+    """model() = the uninterpreted G(q, h): q = the HMC parameters, h = a parameter the operator does not own"""
+    from torchtree.core.model import CallableModel
+
+    class Target(CallableModel):
+        def __init__(self):
+            super().__init__('target')
+            for i, p in enumerate(params):
+                setattr(self, f'p{i}', p)
+            self.h = hyper
+            self.calls = 0
+            self.fail_at = None
+            self.nans = 0
+
+        def _call(self, *a, **k):
+            self.calls += 1
+            if self.fail_at is not None and self.calls == self.fail_at:
+                self.nans += 1
+                return torch.tensor(float('nan'))
+            d = cur().dag
+            q = torch.cat([p.tensor for p in params], -1)
+            out = d.uf('G', *q._ids.tolist(), *hyper.tensor._ids.reshape(-1).tolist())
+            r = from_ids(torch.tensor(out, dtype=torch.int64))
+            r._rg = any(p.tensor._rg for p in params if isinstance(p.tensor, SymTensor))
+            return r
+
+        def _sample_shape(self):
+            return torch.Size([])
+
+        @classmethod
+        def from_json(cls, data, dic):
+            raise NotImplementedError
+
+    return Target()
+
+
+def logp_gibbs(q, h):
+    z = q - h[0]
+    return -(0.5 * z * z).sum() - 0.25 * (z ** 4).sum() + 0.3 * q.prod() + 0.2 * h[0] * q.sum()
+
+
+def _mk_params(dim, nparams, fresh):
+    from torchtree.core.parameter import Parameter
+
+    sizes = [dim] if nparams == 1 else [1] * dim
+    if nparams == 3:
+        sizes = [1, 1, dim - 2]
+    params = []
+    k = 0
+    for i, sz in enumerate(sizes):
+        params.append(Parameter(f'x{i}', fresh(f'q{i}', [0.3 + 0.4 * (k + j) for j in range(sz)])))
+        k += sz
+    return params
+
+
+def _spd_real(vals, name, default, dim, dense):
+    f64 = torch.float64
+    if dense:
+        g = lambda i, j: vals.get(f'{name}[{i},{j}]', default[i][j])
+        a = min(abs(g(0, 0)), 5.0) + 0.1
+        if dim == 1:
+            return torch.tensor([[a]], dtype=f64)
+        b = _cl(g(0, 1), 2.0)
+        c = min(abs(g(1, 1)), 5.0) + b * b / a + 0.1
+        return torch.tensor([[a, b], [b, c]], dtype=f64)
+    return torch.tensor([min(abs(vals.get(f'{name}[{j}]', default[j])), 5.0) + 0.05 for j in range(dim)], dtype=f64)
+
+
+def _spd_sym(name, default, dim, dense):
+    raw = torch.tensor(default, dtype=torch.float64)
+    m = new_vars(name, raw[:dim, :dim] if dense else raw[:dim])
+    if dense:
+        ids = m._ids.clone()
+        for i in range(dim):
+            for j in range(i):
+                ids[i, j] = ids[j, i]
+        m = from_ids(ids)
+    return m
+
+
+class _Seq:
+    """the objects of ONE chain (parameters, h, target, integrator, operator) and the script of one history.  The script
+    is shared by the solver run (_SymSeq: fresh() = new symbols, snap = node ids) and the replay on the real code
+    (_RealSeq: fresh() = plain tensors taken from the solver's point, snap = cloned tensors)."""
+
+    def __init__(self, cfg):
+        self.cfg = cfg
+        self.level, self.modes, self.dim, self.nparams, self.dense, self.steps, self.fail, self.revmid = cfg
+        self.draws = []
+        self.recs = []
+        self.saved = None
+        self.op = None
+
+    def sampler(self, mm):
+        k = len(self.draws)
+        m = self.fresh(f'mom{k}', [0.7 - 0.5 * j + 0.1 * k for j in range(self.dim)])
+        self.draws.append(m)
+        return m.clone()
+
+    def between(self, mode, k):
+        ps, hy = self.params, self.hyper
+        if self.level == 'op':
+            (self.op.reject if mode in ('rej', 'gibbs') else self.op.accept)()
+        elif mode in ('rej', 'gibbs'):
+            for p_, s in zip(ps, self.saved):
+                p_.tensor = s
+        if mode in ('gibbs', 'acc+gibbs'):
+            hy.tensor = self.fresh(f'h{k}', [0.25 + 0.3 * k])
+        elif mode == 'inplace-h':
+            hy.tensor[...] = self.fresh(f'h{k}', [0.25 + 0.3 * k])
+            hy.fire_parameter_changed()
+        elif mode == 'inplace-q':
+            w = self.fresh(f'w{k}', [-0.2 + 0.15 * j + 0.1 * k for j in range(self.dim)])
+            off = 0
+            for p_ in ps:
+                n = p_.shape[-1]
+                p_.tensor.copy_(w[off:off + n])
+                p_.fire_parameter_changed()
+                off += n
+
+    def call_integ(self, k):
+        self.saved = [p_.tensor.clone() for p_ in self.params]  # what MCMCOperator.step() keeps for reject()
+        P = self.fresh(f'P{k}', [0.7 - 0.5 * j + 0.1 * k for j in range(self.dim)])
+        rec = {'k': k, 'start': self.snap_q(), 'h': self.snap(self.hyper.tensor), 'P': P}
+        pm = self.integ(self.model, self.params, P, self.im)
+        rec.update(end=self.snap_q(), pm=pm, rg=any(p_.requires_grad for p_ in self.params))
+        self.recs.append(rec)
+
+    def flip(self, k):
+        rec = self.recs[k]
+        back = self.integ(self.model, self.params, -rec['pm'], self.im)
+        rec['flip'] = (self.snap_q(), back)
+
+    def recall(self, k):
+        """after a flip: back to the saved start and the same forward call again (the chain goes on from its end point)"""
+        rec = self.recs[k]
+        for p_, s in zip(self.params, self.saved):
+            p_.tensor = s
+        self.saved = [p_.tensor.clone() for p_ in self.params]
+        pm = self.integ(self.model, self.params, rec['P'], self.im)
+        rec['re'] = (self.snap_q(), pm)
+
+    def call_op(self, k):
+        n0, nan0 = len(self.draws), self.model.nans
+        if self.fail is not None and self.fail[0] == k:
+            self.model.fail_at = self.model.calls + self.fail[1]
+        rec = {'k': k, 'start': self.snap_q(), 'h': self.snap(self.hyper.tensor)}
+        ret = self.op.step()
+        rec.update(end=self.snap_q(), ret=ret, mom=self.draws[-1], ndraws=len(self.draws) - n0,
+                   nans=self.model.nans - nan0, rg=any(p_.requires_grad for p_ in self.params))
+        self.recs.append(rec)
+
+    def run(self, upto=None):
+        """upto = k: return just BEFORE call k (its between step applied) - the finite-difference replay continues itself"""
+        n = len(self.modes) + 1
+        for k in range(n):
+            if k > 0:
+                if self.revmid and self.level == 'integ':
+                    self.flip(k - 1)
+                    self.recall(k - 1)
+                self.between(self.modes[k - 1], k)
+            if upto == k:
+                return self
+            (self.call_integ if self.level == 'integ' else self.call_op)(k)
+        if self.level == 'op':
+            # the integrator that lived through the operator's history: one more forward trajectory from the accepted state
+            self.op.accept()
+            self.im = self.op.inverse_mass_matrix
+            self.call_integ(n)
+            self.flip(n)
+        else:
+            self.flip(n - 1)
+        return self
+
+
+class _SymSeq(_Seq):
+    def fresh(self, name, defaults):
+        return new_vars(name, torch.tensor(defaults, dtype=torch.float64))
+
+    def snap(self, x):
+        return [int(i) for i in x._ids.reshape(-1).tolist()]
+
+    def snap_q(self):
+        return [i for p_ in self.params for i in self.snap(p_.tensor)]
+
+    def build(self):
+        from torchtree.core.parameter import Parameter
+        from torchtree.inference.hmc.integrator import LeapfrogIntegrator
+        from torchtree.inference.hmc.operator import HMCOperator
+
+        d = cur().dag
+        gibbs_witness(d, self.dim)
+        self.params = _mk_params(self.dim, self.nparams, self.fresh)
+        self.hyper = Parameter('h', self.fresh('h0', [0.25]))
+        self.model = make_gibbs_target(self.params, self.hyper)
+        self.eps = mkfloat(d.var('eps', 0.11))
+        self.integ = LeapfrogIntegrator('leapfrog', self.steps, self.eps)
+        if self.level == 'integ':
+            self.im = _spd_sym('Minv', _MINV0[self.dense], self.dim, self.dense)
+        else:
+            self.mass = Parameter('mass', _spd_sym('M', _M0[self.dense], self.dim, self.dense))
+            self.op = HMCOperator('hmc', self.model, self.params, self.integ, self.mass, 1.0, 0.8, [])
+        return self
+
+
+class _RealSeq(_Seq):
+    def __init__(self, cfg, vals, force=None):
+        super().__init__(cfg)
+        self.vals = vals
+        self.force = force or {}
+
+    def fresh(self, name, defaults):
+        return torch.tensor([_cl(self.vals.get(f'{name}[{j}]', x)) for j, x in enumerate(defaults)], dtype=torch.float64)
+
+    def snap(self, x):
+        return x.detach().clone()
+
+    def snap_q(self):
+        return torch.cat([p_.tensor.detach().clone() for p_ in self.params], -1)
+
+    def build(self):
+        from torchtree.core.model import CallableModel
+        from torchtree.core.parameter import Parameter
+        from torchtree.inference.hmc.integrator import LeapfrogIntegrator
+        from torchtree.inference.hmc.operator import HMCOperator
+
+        params = self.params = _mk_params(self.dim, self.nparams, self.fresh)
+        hyper = self.hyper = Parameter('h', self.fresh('h0', [0.25]))
+
+        class T(CallableModel):
+            def __init__(self):
+                super().__init__('t')
+                for i, p in enumerate(params):
+                    setattr(self, f'p{i}', p)
+                self.h = hyper
+                self.calls = 0
+                self.fail_at = None
+                self.nans = 0
+
+            def _call(self, *a, **k):
+                self.calls += 1
+                if self.fail_at is not None and self.calls == self.fail_at:
+                    self.nans += 1
+                    return torch.tensor(float('nan'), dtype=torch.float64)
+                return logp_gibbs(torch.cat([p.tensor for p in params], -1), hyper.tensor)
+
+            def _sample_shape(self):
+                return torch.Size([])
+
+            @classmethod
+            def from_json(cls, data, dic):
+                raise NotImplementedError
+
+        self.model = T()
+        self.eps = self.force.get('eps', _sq(self.vals.get('eps', 0.11)))
+        self.integ = LeapfrogIntegrator('leapfrog', self.steps, self.eps)
+        if self.level == 'integ':
+            self.im = _spd_real(self.vals, 'Minv', _MINV0[self.dense], self.dim, self.dense)
+        else:
+            self.mass = Parameter('mass', _spd_real(self.vals, 'M', _M0[self.dense], self.dim, self.dense))
+            self.op = HMCOperator('hmc', self.model, self.params, self.integ, self.mass, 1.0, 0.8, [])
+        return self
+
+    def minv(self):
+        """independent of the operator"""
+        if self.level == 'integ':
+            return self.im
+        M = self.mass.tensor.detach()
+        return torch.linalg.inv(M) if self.dense else 1.0 / M
+
+
+def seq_label(cfg):
+    level, modes, dim, nparams, dense, steps, fail, revmid = cfg
+    what = 'LeapfrogIntegrator.__call__' if level == 'integ' else 'HMCOperator.step'
+    chain = 'call 1' + ''.join(f' -> [{m}] -> call {k + 2}' for k, m in enumerate(modes))
+    extra = ''
+    if fail is not None:
+        extra += f' NaN target at evaluation {fail[1]} of call {fail[0] + 1}'
+    if revmid:
+        extra += ' flip-and-return + forward again after every call'
+    return f'consecutive calls on one object [{what}: {chain}]{extra} d={dim} params={nparams} dense={dense} steps={steps}'
+
+
+def seq_task(task, tr):
+    from torchtree.core.parameter import Parameter
+    from torchtree.inference.hmc.hamiltonian import Hamiltonian
+    from torchtree.inference.hmc.integrator import LeapfrogIntegrator, set_tensor
+    from torchtree.inference.hmc.operator import HMCOperator
+    from torchtree.inference.mcmc.operator import MCMCOperator
+
+    _, level, modes, dim, nparams, dense, steps, fail, revmid, vol = task
+    cfg = (level, tuple(modes), dim, nparams, dense, steps, fail, revmid)
+    label = seq_label(cfg)
+    tr.fn(LeapfrogIntegrator.__call__, set_tensor, Parameter.fire_parameter_changed)
+    if level == 'op':
+        tr.fn(HMCOperator._step, MCMCOperator.step, MCMCOperator.accept, MCMCOperator.reject, Hamiltonian.kinetic_energy,
+              Hamiltonian.potential_energy, HMCOperator.update_mass_matrices)
+        tr.stubs.add('Hamiltonian.sample_momentum: the drawn momentum is an arbitrary symbolic vector')
+    tr.bounds['consecutive calls'] = (
+        'histories of 2 (quick) / 3 (thorough) calls of ONE LeapfrogIntegrator / HMCOperator.step on ONE set of parameter objects; '
+        'between two calls: ' + '; '.join(f'{k} = {v}' for k, v in SEQ_WHAT.items()) + '; target = uninterpreted U(q, h), h one '
+        'scalar parameter outside the HMC block; operator histories also with a NaN target inside one trajectory (restore + '
+        'retry) and end with a direct integrator call + flip on the objects the operator used; dimension <= 2 (3 with three '
+        'parameters, diagonal), steps <= 2, momenta / h / overwritten positions fresh symbols per call')
+    try:
+        _seq_symbolic(cfg, vol, tr, label)
+    except Exception as e:  # noqa: BLE001
+        ok, detail = replay_seq(cfg, 'runs', {})
+        if ok:
+            tr.violation(SEQ_SIG[level] + 'raises', f'{label}: the history cannot be run ({type(e).__name__}: {e}): {detail}',
+                         {'label': label, 'clause': 'runs', 'values': {}})
+            return
+        raise
+
+
+def _seq_symbolic(cfg, vol, tr, label):
+    import contextlib
+
+    from symtorch.explore import prove
+
+    level, modes, dim, nparams, dense, steps, fail, revmid = cfg
+    with tracing() as t:
+        d = t.dag
+        S = _SymSeq(cfg)
+        with (_Patched(S.sampler) if level == 'op' else contextlib.nullcontext()):
+            S.build()
+            S.run()
+            if level == 'op':
+                if dense:
+                    minv = torch.inverse(S.mass.tensor)._ids.tolist()  # functional stub: the symbols of the inverse of THIS matrix
+                    tr.stubs.add('torch.inverse: functional contract stub (W M = M W = I)')
+                else:
+                    minv = [d.div(1, int(i)) for i in S.mass.tensor._ids.tolist()]
+            else:
+                minv = S.im._ids.tolist()
+        tr.witness_runs += 1
+        tr.ops_checked += t.nchecked
+        tr.regions += 1
+        if t.concretized:
+            tr.inconc(f'{label}: concretised {t.concretized[:2]}')
+            return
+        eps = sym_id(S.integ.step_size)
+        L = S.integ.steps
+        ids = lambda x: [int(i) for i in x._ids.reshape(-1).tolist()]
+        goals = []
+        for rec in S.recs:
+            k = rec['k']
+            at = f'@call{k + 1}'
+            direct = 'P' in rec
+            SIG = SEQ_SIG['integ' if direct else 'op']
+            mom = ids(rec['P'] if direct else rec['mom'])
+            h = rec['h']
+            qT, pT = textbook_dag(d, rec['start'], mom, minv, eps, L, extra=h, name='G')
+            who = f'call {k + 1}' + (' (direct integrator call after the operator history)' if direct and level == 'op' else '')
+            if direct:
+                goals.append((f'{who}: trajectory == leapfrog of the CURRENT target U(., h) from the start of THIS call (gradient d_k U(q, h) of the current h)',
+                              d.and_(*([d.eq(a, b) for a, b in zip(rec['end'], qT)] + [d.eq(a, b) for a, b in zip(ids(rec['pm']), pT)])),
+                              [], SIG + 'trajectory' + at))
+                if 're' in rec:
+                    goals.append((f'{who}: the same forward call again after flip-and-return gives the same leapfrog trajectory',
+                                  d.and_(*([d.eq(a, b) for a, b in zip(rec['re'][0], qT)] + [d.eq(a, b) for a, b in zip(ids(rec['re'][1]), pT)])),
+                                  [], SIG + 'trajectory-again' + at))
+                if 'flip' in rec:
+                    goals.append((f'{who}: flip-and-return: q(after) == start of this call and p(after) == -p',
+                                  d.and_(*([d.eq(a, b) for a, b in zip(rec['flip'][0], rec['start'])] +
+                                           [d.eq(a, d.neg(b)) for a, b in zip(ids(rec['flip'][1]), mom)])),
+                                  [], SIG + 'reversibility' + at))
+            else:
+                goals.append((f'{who}: Hastings term == K(p_start) - K(p_end), p_end of the leapfrog of the CURRENT target from the state this step started at',
+                              d.eq(sym_id(rec['ret']), d.sub(kinetic_dag(d, mom, minv), kinetic_dag(d, pT, minv))), [], SIG + 'hastings' + at))
+                goals.append((f'{who}: proposed position == end point of the leapfrog of the CURRENT target from the state this step started at',
+                              d.and_(*[d.eq(a, b) for a, b in zip(rec['end'], qT)]), [], SIG + 'proposal' + at))
+                goals.append((f'{who}: one momentum draw per trajectory: 1 + the number of numerically failed trajectories',
+                              d.bconst(rec['ndraws'] == 1 + rec['nans']), [], SIG + 'draws' + at))
+                if k > 0:
+                    prev = S.recs[k - 1]
+                    if modes[k - 1] in ('rej', 'gibbs'):
+                        goals.append((f'{who}: reject() put every parameter back to the start of the previous step (identical expressions)',
+                                      d.bconst(rec['start'] == prev['start']), [], SIG + 'reject-restores' + at))
+                    elif modes[k - 1] != 'inplace-q':
+                        goals.append((f'{who}: accept() leaves the proposal in place (identical expressions)',
+                                      d.bconst(rec['start'] == prev['end']), [], SIG + 'accept-keeps' + at))
+            goals.append((f'{who}: requires_grad switched off on return', d.bconst(not rec['rg']), [], SIG + 'requires_grad' + at))
+            if vol and direct and level == 'integ':
+                import C07
+
+                z0 = rec['start'] + mom
+                z1 = rec['end'] + ids(rec['pm'])
+                J = [d.grad(a, z0, honour_stops=False) for a in z1]
+                det = C07.det_leibniz(d, J)
+                # the start of an accepted move is an expression (the last end point): generalised to free variables
+                det = cm.abstracted(d, [i for i in rec['start'] if d.ops[i] != 'var'], [det])[0]
+                goals.append((f"{who}: det d(q',p')/d(q,p) == 1 for the map this call applied", d.eq(det, 1), hess_symmetry(d, [det]),
+                              SIG + 'volume' + at))
+                tr.assumptions.add('the Hessian of the uninterpreted target is symmetric (ground instances for the points visited)')
+                U0 = d.uf('G', *rec['start'], *h)
+                U1 = d.uf('G', *rec['end'], *h)
+                dH = d.sub(d.add(d.neg(U1), kinetic_dag(d, ids(rec['pm']), minv)), d.add(d.neg(U0), kinetic_dag(d, mom, minv)))
+                dH = cm.abstracted(d, [i for i in rec['start'] if d.ops[i] != 'var'], [dH])[0]
+                e = d.var_ids['eps']
+                dH0 = d.substitute([dH], {e: 0})[0]
+                g0 = d.substitute([d.grad(dH, [e], honour_stops=False)[0]], {e: 0})[0]
+                goals.append((f'{who}: energy error of this call vanishes at eps = 0', d.eq(dH0, 0), [], SIG + 'energy-order' + at))
+                goals.append((f'{who}: d(energy error of this call)/d eps vanishes at eps = 0 (error is O(eps^2))', d.eq(g0, 0), [],
+                              SIG + 'energy-order' + at))
+        dom = [d.lt(0, eps)]
+        if level == 'integ':
+            im = S.im._ids
+            if dense:
+                dom.append(d.lt(0, int(im[0, 0])))
+                if dim == 2:
+                    dom.append(d.lt(0, d.sub(d.mul(int(im[0, 0]), int(im[1, 1])), d.mul(int(im[0, 1]), int(im[0, 1])))))
+            else:
+                dom += [d.lt(0, int(i)) for i in im.tolist()]
+        elif dense:
+            dom.append(d.lt(0, int(S.mass.tensor._ids[0, 0])))
+        else:
+            dom += [d.lt(0, int(i)) for i in S.mass.tensor._ids.tolist()]
+        roots = [g[1] for g in goals] + [x for g in goals for x in g[2]] + dom
+        V = {d.args[i][0]: i for i in d.topo(roots) if d.ops[i] == 'var'}
+        pcs = list(t.pcs)
+        # ---- the history did what it says (witness level) and the congruence keeps the two targets apart (solver level)
+        changed = [k for k in range(1, len(S.recs)) if S.recs[k]['h'] != S.recs[k - 1]['h']]
+        want_changed = [k + 1 for k, m in enumerate(modes) if m in ('gibbs', 'acc+gibbs', 'inplace-h')]
+        if [k for k in changed if k <= len(modes)] != want_changed:
+            tr.inconc(f'{label}: harness: the target changed before calls {changed}, the history says {want_changed}')
+            return
+        if level == 'integ':
+            for k, m in enumerate(modes):
+                a, b = S.recs[k], S.recs[k + 1]
+                same = b['start'] == (a['re'][0] if 're' in a else a['end'])
+                if (m in ('acc', 'acc+gibbs', 'inplace-h')) != same or (m in ('rej', 'gibbs') and b['start'] != a['start']):
+                    tr.inconc(f'{label}: harness: call {k + 2} does not start where the history says')
+                    return
+        if fail is not None and S.model.nans != 1:
+            tr.inconc(f'{label}: the NaN evaluation armed for call {fail[0] + 1} was served {S.model.nans} times: the restore path was not exercised as stated')
+        if pcs:
+            # decisions taken on the float witness (torch.equal, comparisons) are hypotheses of every goal: if they are
+            # contradictory over the reals (a round-off difference recorded as "not equal") everything would be proved
+            st, _r, _ = prove(d, dom + pcs, d.FALSE, timeout=20, tr=tr, parallel=True,
+                              label='vacuity guard: the path conditions of the history are satisfiable (must be refutable)')
+            if st == 'proved':
+                tr.inconc(f'{label}: the {len(pcs)} path conditions recorded along the history are contradictory over the reals: '
+                          f'nothing can be concluded from this run')
+                return
+        for k in want_changed:
+            a, b = S.recs[k - 1], S.recs[k]
+            g_old = d.uf('d0~G', *b['start'], *a['h'])
+            g_new = d.uf('d0~G', *b['start'], *b['h'])
+            st, _r, _ = prove(d, dom + pcs, d.eq(g_old, g_new), timeout=20, tr=tr, parallel=True,
+                              label='vacuity guard: gradient of the previous target == gradient of the current target (must be refutable)')
+            if st != 'refuted' or d.vals[g_old] == d.vals[g_new]:
+                tr.inconc(f'{label}: vacuity guard: the solver / the witness does not separate d_0 U(q, h_old) from d_0 U(q, h_new) ({st})')
+                return
+        tr.sample({'case': label, 'calls': len(S.recs), 'target_changed_before_call': [k + 1 for k in want_changed], 'n_path_conditions': len(pcs),
+                   'momentum_draws': len(S.draws), 'gradient_call2[0]': d.to_str(d.uf('d0~G', *S.recs[1]['start'], *S.recs[1]['h']), 3)})
+        discharge_each(tr, d, dom + pcs, goals, label, V, lambda clause, vals: replay_seq(cfg, clause, vals),
+                       timeout=60 if cm_tier() == 'quick' else 240, threads=4 if cm_tier() == 'quick' else 2)
+
+
+def replay_seq(cfg, clause, vals):
+    """(reproduced, detail): the same history on the real code with plain tensors and the target logp_gibbs(q, h);
+    oracles: textbook leapfrog with torch.autograd on the pure function of the CURRENT h, own kinetic energy, own inverse"""
+    import contextlib
+
+    level, modes, dim, nparams, dense, steps, fail, revmid = cfg
+    name, _, at = clause.partition('@call')
+    k = int(at) - 1 if at else None
+    close = lambda a, b: torch.allclose(a, b, rtol=1e-8, atol=1e-10)
+
+    def history(force=None, upto=None):
+        R = _RealSeq(cfg, vals, force)
+        with (_Patched(R.sampler, sym=False) if level == 'op' else contextlib.nullcontext()):
+            R.build()
+            R.run(upto)
+        return R
+
+    def H(R, q, p, h):
+        mi = R.minv()
+        return float(-logp_gibbs(q, h) + 0.5 * (p @ (mi @ p if mi.dim() == 2 else mi * p)))
+
+    try:
+        if name == 'energy-order':
+            errs = []
+            for e in (0.04, 0.02):
+                R = history({'eps': e})
+                rec = R.recs[k]
+                errs.append(abs(H(R, rec['end'], rec['pm'].detach(), rec['h']) - H(R, rec['start'], rec['P'], rec['h'])))
+            if errs[1] > 1e-12 and errs[0] / errs[1] < 2.8:
+                return True, f'energy error of call {k + 1} does not shrink quadratically with the step size: {errs} at step sizes 0.04, 0.02'
+            return False, f'energy errors {errs}'
+        if name == 'volume':
+            h_ = 1e-6
+            R0 = history()
+            rec = R0.recs[k]
+            z0 = torch.cat([rec['start'], rec['P']])
+
+            def flow(z):
+                R = history(upto=k)
+                off = 0
+                for p_ in R.params:
+                    n = p_.shape[-1]
+                    p_.tensor = z[off:off + n].clone()
+                    off += n
+                pm = R.integ(R.model, R.params, z[dim:].clone(), R.im)
+                return torch.cat([R.snap_q(), pm.detach()])
+
+            J = torch.zeros(2 * dim, 2 * dim, dtype=torch.float64)
+            for j in range(2 * dim):
+                e = torch.zeros(2 * dim, dtype=torch.float64)
+                e[j] = h_
+                J[:, j] = (flow(z0 + e) - flow(z0 - e)) / (2 * h_)
+            det = float(torch.linalg.det(J))
+            if abs(det - 1.0) > 1e-5:
+                return True, f'numerical Jacobian determinant of the map of call {k + 1} = {det}'
+            return False, 'agree'
+        R = history()
+    except Exception as e:  # noqa: BLE001 - the replay reports whatever the real code does
+        return True, f'the history raised {type(e).__name__}: {e}'
+    if name == 'runs':
+        return False, 'the real code runs the history without raising'
+    rec = R.recs[k]
+    minv, eps, L = R.minv(), float(R.integ.step_size), R.integ.steps
+    direct = 'P' in rec
+    mom = rec['P'] if direct else rec['mom']
+    hk = rec['h']
+    qT, pT = textbook_real(rec['start'], mom, minv, eps, L, logp=lambda x: logp_gibbs(x, hk))
+    state = (f'[call {k + 1} of the history, step size {eps!r}, steps {L}, h = {hk.tolist()}' +
+             (f' (h during the previous call: {R.recs[k - 1]["h"].tolist()})' if k > 0 else '') + ']')
+    if name in ('trajectory', 'trajectory-again'):
+        q1, pm = (rec['end'], rec['pm']) if name == 'trajectory' else rec['re']
+        if not close(q1, qT) or not close(pm.detach(), pT):
+            return True, (f'{state} integrator gives q={q1.tolist()} p={pm.tolist()}, the leapfrog of the current target from the '
+                          f'start of this call {rec["start"].tolist()} gives q={qT.tolist()} p={pT.tolist()}')
+        return False, 'agree'
+    if name == 'reversibility':
+        q2, back = rec['flip']
+        if not close(q2, rec['start']) or not close(back.detach(), -mom):
+            return True, (f'{state} flip-and-return gives q={q2.tolist()} p={back.tolist()} instead of q={rec["start"].tolist()} '
+                          f'p={(-mom).tolist()}')
+        return False, 'agree'
+    if name == 'requires_grad':
+        return bool(rec['rg']), 'requires_grad left on' if rec['rg'] else 'agree'
+    K = lambda p: float(0.5 * (p @ (minv @ p if minv.dim() == 2 else minv * p)))
+    if name == 'hastings':
+        ret, want = float(rec['ret']), K(mom) - K(pT)
+        if not abs(ret - want) <= 1e-8 * max(1.0, abs(want)):
+            return True, (f'{state} step() returned {ret!r} but K(p_start) - K(p_end) = {want!r} for the leapfrog of the current target '
+                          f'from {rec["start"].tolist()} with the momentum of the successful trajectory ({rec["ndraws"]} draw(s))')
+        return False, 'agree'
+    if name == 'proposal':
+        if not close(rec['end'], qT):
+            return True, f'{state} proposed position {rec["end"].tolist()} but the leapfrog of the current target ends at {qT.tolist()}'
+        return False, 'agree'
+    if name == 'draws':
+        return rec['ndraws'] != 1 + rec['nans'], f'{rec["ndraws"]} momentum draw(s), {rec["nans"]} failed trajectory(ies)'
+    if name == 'reject-restores':
+        ok = torch.equal(rec['start'], R.recs[k - 1]['start'])
+        return (not ok), f'{state} state after reject() {rec["start"].tolist()}, start of the previous step {R.recs[k - 1]["start"].tolist()}'
+    if name == 'accept-keeps':
+        ok = torch.equal(rec['start'], R.recs[k - 1]['end'])
+        return (not ok), f'{state} state after accept() {rec["start"].tolist()}, proposal of the previous step {R.recs[k - 1]["end"].tolist()}'
+    return False, f'no replay for clause {clause}'
+
+
 # ------------------------------------------------------------------ replays (real autograd, Gaussian-mixture target)
 def real_setup(dim, nparams, dense, steps, vals):
     from torchtree.core.model import CallableModel
@@ -1228,7 +1859,7 @@ def replay_hastings(dim, nparams, dense, steps, fail, vals):
 
 def run_task(task, tr):
     {'rev': reversibility_task, 'vol': volume_task, 'energy': energy_task, 'hastings': hastings_task,
-     'hist': history_task}[task[0]](task, tr)
+     'hist': history_task, 'seq': seq_task}[task[0]](task, tr)
 
 
 def tasks_for(tier):
@@ -1251,6 +1882,19 @@ def tasks_for(tier):
                ('hist', 'mass', 2, 1, True, 2, 2, False), ('hist', 'mass', 2, 2, False, 1, 1, True),
                ('hist', 'oplsd', 2, 2, False, 1, 2, False), ('hist', 'oplsd', 2, 1, True, 2, 1, False),
                ('hist', 'massadapt', 2, 2, False, 1, 1, False)]
+        # consecutive calls on ONE object, changing target:
+        # (level, what happens between the calls, dim, params, dense, steps, NaN at (call, evaluation), flip after every call, volume + energy clause)
+        ts += [('seq', 'integ', ('acc',), 2, 2, False, 1, None, False, True), ('seq', 'integ', ('rej',), 1, 1, False, 2, None, False, True),
+               ('seq', 'integ', ('gibbs',), 2, 1, True, 1, None, False, True), ('seq', 'integ', ('acc+gibbs',), 2, 2, False, 2, None, False, True),
+               ('seq', 'integ', ('acc+gibbs',), 1, 1, True, 1, None, False, True), ('seq', 'integ', ('inplace-h',), 2, 1, False, 1, None, False, True),
+               ('seq', 'integ', ('inplace-q',), 3, 3, False, 1, None, False, False), ('seq', 'integ', ('acc+gibbs',), 2, 1, True, 2, None, True, False),
+               ('seq', 'op', ('acc',), 2, 1, False, 1, None, False, False), ('seq', 'op', ('rej',), 1, 1, True, 2, None, False, False),
+               ('seq', 'op', ('gibbs',), 2, 2, False, 1, None, False, False), ('seq', 'op', ('acc+gibbs',), 2, 2, True, 1, None, False, False),
+               ('seq', 'op', ('acc+gibbs',), 1, 1, False, 2, None, False, False), ('seq', 'op', ('inplace-h',), 2, 1, False, 2, None, False, False),
+               ('seq', 'op', ('inplace-q',), 2, 2, False, 1, None, False, False),
+               # restore-on-failure between the calls: a NaN target inside the first / the second step
+               ('seq', 'op', ('acc+gibbs',), 2, 1, False, 1, (1, 2), False, False), ('seq', 'op', ('acc',), 1, 1, False, 2, (0, 2), False, False),
+               ('seq', 'op', ('rej',), 2, 2, False, 1, (1, 1), False, False), ('seq', 'op', ('gibbs',), 1, 1, True, 1, (0, 3), False, False)]
     else:
         for dim in (1, 2):
             for nparams in ((1,) if dim == 1 else (1, 2)):
@@ -1277,6 +1921,27 @@ def tasks_for(tier):
                         vol = dim == 1 or (L <= 2 and not dense) or (L == 1 and how in ('attr', 'mass', 'oplsd', 'lsd'))
                         ts.append(('hist', how, dim, nparams, dense, s0, s1, vol))
             ts.append(('hist', how, 3, 3, False, 1, 2, False))
+        # consecutive calls: every between-step for histories of 2 calls on six shapes, every PAIR of between-steps for 3 calls
+        shapes = [(1, 1, False, 2), (2, 2, False, 1), (2, 1, True, 1), (2, 1, False, 2), (1, 1, True, 1), (2, 2, True, 1)]
+        i = 0
+        for m in SEQ_MODES:
+            for c in shapes:
+                i += 1
+                ts.append(('seq', 'integ', (m,), *c, None, False, True))
+                ts.append(('seq', 'integ', (m,), *c, None, True, False))
+                ts.append(('seq', 'op', (m,), *c, None, False, False))
+                ts.append(('seq', 'op', (m,), *c, (i % 2, 1 + i % 3), False, False))
+            ts.append(('seq', 'integ', (m,), 3, 3, False, 1, None, False, False))
+            ts.append(('seq', 'op', (m,), 3, 3, False, 1, None, False, False))
+        i = 0
+        for m1 in SEQ_MODES:
+            for m2 in SEQ_MODES:
+                i += 1
+                c = shapes[i % 6]
+                ts.append(('seq', 'integ', (m1, m2), *c, None, False, c[0] == 1 or not c[2]))
+                ts.append(('seq', 'integ', (m1, m2), *shapes[(i + 2) % 6], None, True, False))
+                ts.append(('seq', 'op', (m1, m2), *shapes[(i + 4) % 6], None, False, False))
+                ts.append(('seq', 'op', (m1, m2), *c, (i % 3, 1 + (i // 3) % 3), False, False))
     return ts
 
 
@@ -1297,6 +1962,20 @@ def body(chk):
                                          'diagonal mass matrix, five samples, update_frequency 5; DualAveragingStepSize mu = -2; '
                                          'find_reasonable_step_size: the search path taken at the witness (goals proved for every '
                                          'step size c * eps0); stan_adaptation.py (warm-up schedule) not covered')
+    chk.explanation += ('; consecutive calls: ONE integrator / operator and ONE set of parameter objects are used for histories of 2 '
+                        '(quick) / 3 (thorough) trajectories / operator steps; the next call starts at the very tensor objects the last '
+                        'one left (accepted), at the restored start (rejected), after the target U(q, h) changed through a parameter h '
+                        'outside the HMC block (fresh symbols for h: the gradient of the current target d_k U(q, h_new) and a gradient '
+                        'kept from the last call d_k U(q, h_old) are different terms, solver vacuity guard), after in-place writes + '
+                        'fire_parameter_changed, and across the restore-and-retry path of HMCOperator._step (NaN target); after every '
+                        'call the trajectory equals the leapfrog of the CURRENT target from the start of THAT call, det = 1, the energy '
+                        'error is second order, Hastings = K0 - K1, and flip-and-return holds on the object as the history left it')
+    chk.total.bounds['hmc consecutive calls'] = (
+        'one scalar parameter h outside the HMC block; 2 calls quick / 2 and 3 calls thorough (every pair of between-steps); per history '
+        'one NaN evaluation at most; a flip-and-return is itself a call, so pure histories flip only after their last call (histories of '
+        '1, 2, 3 calls cover every position) and the revmid histories flip after every call and repeat the forward call; det / energy '
+        'clauses on integrator histories only (the operator returns no momentum); warm-up schedules (stan_adaptation.py) and adaptors '
+        'between the calls are covered by the retuned-object histories, not combined with a changing target')
     chk.total.bounds['hmc'] = 'dimension <= 2, leapfrog steps <= 2 quick / 3 thorough, diagonal and dense SPD inverse mass matrix, 1 or 2 parameters per operator'
     chk.total.assumptions |= {'target differentiable with symmetric Hessian; autograd modelled by symbolic reverse differentiation '
                               '(validated against torch.autograd in the replays)',
